@@ -14,6 +14,20 @@
       store     Entry::new + set_secret                        Err → return Err ; Ok → return Ok k
                 (the guard `_guard` is dropped when the function returns: implicit unlock)
 
+  POISONING.  KEY_GENERATION_LOCK is a `std::sync::Mutex`: when a thread panics while it holds the guard
+  (a host-supplied keyring-core credential store that panics in get_secret / set_secret inside the
+  locked section), the guard is dropped during unwinding and the mutex is marked POISONED — for the life
+  of the process, for every (service, id).  From then on `lock()` still waits for the mutex but returns
+  `Err(PoisonError)`.  What the code does with that result is a PARAMETER of the model (`fc`,
+  instantiated by the driver and the theorems with the extracted fact
+  `Generated.lockPoisonFailsClosed`):
+      fc = true    `lock().map_err(..)?` — the error is returned: the caller FAILS CLOSED, nothing stored
+      fc = false   `lock().ok()` and the like — the result is discarded and with it the guard: the
+                   caller goes on into the "locked" section WITHOUT holding the lock
+  (`unwrap_or_else(|e| e.into_inner())` would be a third, safe, behaviour — it keeps the guard; the
+  translator refuses it loudly instead of guessing.)
+  `Ev.panic t`: the current keyring call of caller `t` panics (no effect on the keyring itself).
+
   A keyring call is one atomic step (the credential store serialises its own operations).  What the
   environment decides is an INPUT of the step, never predicted: the bytes `generate()` returns (`fresh`)
   and whether the keyring / RNG call of this step fails (`ok = false`: store unavailable, entry of the
@@ -63,10 +77,12 @@ structure St where
   stores : Nat             -- successful set_secret calls so far
   deletes : Nat            -- delete_db_key calls that removed an entry
   trace : List (Nat × Nat) -- (thread, Act.code) of every protocol step performed, latest first
+  poisoned : Bool          -- KEY_GENERATION_LOCK is poisoned (sticky: std never clears it by itself)
 
-/-- all callers at the start; the keyring holds `r` -/
-def init (r : Option Nat) : St :=
-  { ring := r, lock := none, pc := fun _ => .start, stores := 0, deletes := 0, trace := [] }
+/-- all callers at the start; the keyring holds `r`; `p`: the process-wide lock is already poisoned
+    (by an earlier call, possibly for another key id) -/
+def init (r : Option Nat) (p : Bool := false) : St :=
+  { ring := r, lock := none, pc := fun _ => .start, stores := 0, deletes := 0, trace := [], poisoned := p }
 
 def setPc (s : St) (t : Nat) (p : Pc) : St := { s with pc := fun u => if u = t then p else s.pc u }
 
@@ -78,9 +94,12 @@ inductive Ev where
   | step (t fresh : Nat) (ok : Bool)
   /-- somebody calls `delete_db_key` (takes no lock) -/
   | delete
+  /-- the keyring call thread `t` is in panics (the credential store panics, before any effect) -/
+  | panic (t : Nat)
   deriving DecidableEq, Repr
 
-def stepThread (s : St) (t fresh : Nat) (ok : Bool) : St :=
+/-- `fc`: a poisoned lock makes the caller fail closed (`true`) or go on without the guard (`false`) -/
+def stepThread (fc : Bool) (s : St) (t fresh : Nat) (ok : Bool) : St :=
   match s.pc t with
   | .start =>
       if ok then
@@ -90,8 +109,13 @@ def stepThread (s : St) (t fresh : Nat) (ok : Bool) : St :=
       else setPc (log s t .read) t .failed
   | .wantLock =>
       match s.lock with
-      | none => setPc (log { s with lock := some t } t .lock) t .locked
-      | some _ => s                                    -- blocked
+      | none =>
+          if s.poisoned then
+            -- `lock()` acquires the mutex and returns Err(PoisonError { guard })
+            if fc then setPc (log s t .lock) t .failed   -- `?`: guard dropped, Err(Keyring) returned
+            else setPc (log s t .lock) t .locked         -- `.ok()`: guard dropped, the caller goes on
+          else setPc (log { s with lock := some t } t .lock) t .locked
+      | some _ => s                                    -- blocked (poisoned or not)
   | .locked =>
       if ok then
         match s.ring with
@@ -107,19 +131,35 @@ def stepThread (s : St) (t fresh : Nat) (ok : Bool) : St :=
   | .done _ => s
   | .failed => s
 
-def step (s : St) : Ev → St
-  | .step t fresh ok => stepThread s t fresh ok
+/-- the keyring call of `t` panics: the caller's stack unwinds; if it holds the guard, the guard is
+    dropped while panicking, which releases AND poisons the mutex.  A caller that has returned cannot
+    panic any more. -/
+def panicThread (s : St) (t : Nat) : St :=
+  match s.pc t with
+  | .done _ => s
+  | .failed => s
+  | _ =>
+      if s.lock = some t then setPc { s with lock := none, poisoned := true } t .failed
+      else setPc s t .failed
+
+def step (fc : Bool) (s : St) : Ev → St
+  | .step t fresh ok => stepThread fc s t fresh ok
   | .delete =>
       match s.ring with
       | some _ => { s with ring := none, deletes := s.deletes + 1 }
       | none => s
+  | .panic t => panicThread s t
 
-def run (s : St) : List Ev → St
+def run (fc : Bool) (s : St) : List Ev → St
   | [] => s
-  | e :: es => run (step s e) es
+  | e :: es => run fc (step fc s e) es
 
 def Ev.isDelete : Ev → Bool
   | .delete => true
+  | _ => false
+
+def Ev.isPanic : Ev → Bool
+  | .panic _ => true
   | _ => false
 
 /-- the schedule contains no `delete_db_key` -/
@@ -142,7 +182,8 @@ def aloneSched (t fresh : Nat) : List Ev := List.replicate 5 (.step t fresh true
               database encrypted under k; an encrypted file opens iff its key is k (assumption on
               SQLCipher, exercised by the harness); anything else fails with WrongEncryptionKey.
    The keyring is assumed to work here (failures are covered by `Ev.step … false` above and by the
-   sequential matrix); SQLite's own file locking (`database is locked`) is not modelled. -/
+   sequential matrix) except that a credential call may PANIC (`NEv.panic`); SQLite's own file locking
+   (`database is locked`) is not modelled. -/
 
 inductive NFile where
   | missing | empty | enc (k : Nat)
@@ -163,6 +204,7 @@ inductive NPc where
   | opening (k : Nat)     -- has a key: about to open the connection
   | ok (k : Nat)          -- returned Ok(storage) opened under k
   | err (e : NErr)
+  | panicked              -- the call unwound with a panic
   deriving DecidableEq, Repr
 
 structure NSt where
@@ -170,12 +212,13 @@ structure NSt where
   k : St                  -- keyring entry, KEY_GENERATION_LOCK and the get_or_create program counters
   pc : Nat → NPc
 
-def ninit : NSt := { file := .missing, k := init none, pc := fun _ => .pre }
+/-- `p`: KEY_GENERATION_LOCK is already poisoned when the callers start -/
+def ninit (p : Bool := false) : NSt := { file := .missing, k := init none p, pc := fun _ => .pre }
 
 def nset (s : NSt) (t : Nat) (p : NPc) : NSt := { s with pc := fun u => if u = t then p else s.pc u }
 
 /-- one step of thread `t`; `fresh` is what `generate()` returns if this is a generate step -/
-def nstep (s : NSt) (t fresh : Nat) : NSt :=
+def nstep (fc : Bool) (s : NSt) (t fresh : Nat) : NSt :=
   match s.pc t with
   | .pre =>
       match s.file with
@@ -184,8 +227,9 @@ def nstep (s : NSt) (t fresh : Nat) : NSt :=
   | .kr =>
       match s.k.pc t with
       | .done k => nset s t (.opening k)               -- get_or_create_db_key returned Ok(k)
-      | .failed => nset s t (.err .keyring)            -- … returned Err (not reachable with a working keyring)
-      | _ => { s with k := stepThread s.k t fresh true }
+      | .failed => nset s t (.err .keyring)            -- … returned Err (with a working keyring: only
+                                                       --   because the lock is poisoned)
+      | _ => { s with k := stepThread fc s.k t fresh true }
   | .chk =>
       match s.k.ring with
       | some k => nset s t (.opening k)
@@ -200,9 +244,38 @@ def nstep (s : NSt) (t fresh : Nat) : NSt :=
       | _ => nset { s with file := .enc k } t (.ok k)
   | .ok _ => s
   | .err _ => s
+  | .panicked => s
 
-def nrun (s : NSt) : List (Nat × Nat) → NSt
+/-- the call of `t` panics (a credential call inside it does): inside `get_or_create_db_key` the
+    keyring part unwinds as `panicThread` says; a call that has returned cannot panic -/
+def npanic (s : NSt) (t : Nat) : NSt :=
+  match s.pc t with
+  | .ok _ => s
+  | .err _ => s
+  | .panicked => s
+  | .kr => nset { s with k := panicThread s.k t } t .panicked
+  | _ => nset s t .panicked
+
+inductive NEv where
+  /-- thread `t` performs its next step; `fresh`: what `generate()` returns if it is a generate step -/
+  | step (t fresh : Nat)
+  /-- the call of thread `t` panics -/
+  | panic (t : Nat)
+  deriving DecidableEq, Repr
+
+def nstepEv (fc : Bool) (s : NSt) : NEv → NSt
+  | .step t f => nstep fc s t f
+  | .panic t => npanic s t
+
+def nrun (fc : Bool) (s : NSt) : List NEv → NSt
   | [] => s
-  | (t, f) :: es => nrun (nstep s t f) es
+  | e :: es => nrun fc (nstepEv fc s e) es
+
+/-- a panic-free schedule given as (thread, fresh) pairs -/
+def nsteps (l : List (Nat × Nat)) : List NEv := l.map (fun p => .step p.1 p.2)
+
+def NEv.isPanic : NEv → Bool
+  | .panic _ => true
+  | _ => false
 
 end MdkVerif.Keyring
